@@ -71,6 +71,7 @@ class HyperVFile:
         self.fh.seek(0, io.SEEK_END)
         file_size = self.fh.tell()
         key_tables_size = 0
+        key_table_offsets = set()
 
         for object_table in self.object_tables:
             for entry in object_table.entries:
@@ -85,8 +86,9 @@ class HyperVFile:
                     self.object_tables.append(new_object_table)
 
                 if entry.type == ObjectEntryType.KeyTable:
-                    if any(table.offset == entry.offset for tables in self.key_tables.values() for table in tables):
+                    if entry.offset in key_table_offsets:
                         raise ValueError(f"Key table at 0x{entry.offset:x} is referenced more than once")
+                    key_table_offsets.add(entry.offset)
                     # Key tables don't overlap, so together they can't be larger than the file
                     key_tables_size += entry.size
                     if key_tables_size > file_size:
